@@ -679,3 +679,163 @@ func TestVF_C03_Rapid(t *testing.T) {
 		run(rt, c)
 	})
 }
+
+// ---- C04
+
+const c04Rule = "C01's world plus stream failures: break(source|target stream, how in {peer error on Recv, peer EOF, Send error, initiator cancelled}) anywhere in the history (random part) and at every step boundary of a generated fault-free prefix (systematic part), followed by reconnections (a re-connected source resumes from the highest low watermark it was ever sent and re-sends from there; a re-connected target starts a fresh tracker); oracle across all incarnations: whenever a source is sent low=a, every task of that source with id<a that the proxy ever read has been confirmed by some target-stream incarnation for some copy of it; non-trivial = a fault landed while a task of some source was delivered-but-unconfirmed or queued, followed by a reconnect and a further source ack; distinct = distinct histories"
+
+type c04Outcome struct {
+	known    map[string]int
+	unknown  []rwUnconfirmed
+	nontriv  bool
+	classes  []string
+	panicMsg string
+	other    string
+}
+
+func c04Eval(t *testing.T, c rwCase) c04Outcome {
+	res := rwRun(t, c, rwOptions{})
+	o := c04Outcome{known: map[string]int{}}
+	if len(res.Panics) > 0 {
+		o.panicMsg = res.Panics[0]
+	}
+	if len(res.Other) > 0 {
+		o.other = res.Other[0]
+	}
+	for _, u := range res.Unconfirmed {
+		if _, ok := vfshared.KnownSignature("C04", u.label); ok {
+			o.known[u.label]++
+		} else {
+			o.unknown = append(o.unknown, u)
+		}
+	}
+	breaks, reconnects := 0, 0
+	for _, op := range c.Ops {
+		if op.K == "break" {
+			breaks++
+		}
+		if op.K == "connect" && breaks > 0 {
+			reconnects++
+		}
+	}
+	o.nontriv = breaks > 0 && reconnects > 0
+	o.classes = rwSortedKeys(res.Classes)
+	if breaks > 0 {
+		o.classes = append(o.classes, "has_break")
+	}
+	if reconnects > 0 {
+		o.classes = append(o.classes, "has_reconnect_after_break")
+	}
+	return o
+}
+
+func c04Report(tt interface{ Fatalf(string, ...any) }, st *vfshared.Stats, part string, c rwCase, o c04Outcome) {
+	if o.panicMsg != "" {
+		c01Fail(tt, st, "C04", part, c, "proxy goroutine panicked: "+o.panicMsg)
+	}
+	if len(o.unknown) > 0 {
+		c01Fail(tt, st, "C04", part, c, rwDescribeUnconfirmed(o.unknown[0]))
+	}
+	if o.other != "" {
+		c01Fail(tt, st, "C04", part, c, o.other)
+	}
+	for k, n := range o.known {
+		what, _ := vfshared.KnownSignature("C04", k)
+		for i := 0; i < n; i++ {
+			st.Known(k, what)
+		}
+	}
+	st.Case(rwFingerprint(c), o.nontriv, o.classes...)
+	if o.nontriv && st.WantSample() {
+		st.Sample(c.String())
+	}
+}
+
+func TestVF_C04_Rapid(t *testing.T) {
+	const part = "rapid"
+	if rp := vfshared.ReplayPart(); rp != "" && rp != part {
+		t.Skip()
+	}
+	st := vfshared.NewStats("C04", part, c04Rule)
+	defer st.Flush()
+	if f := vfshared.ReplayFile(); f != "" {
+		var c rwCase
+		if _, err := vfshared.LoadReplay(f, &c); err != nil {
+			t.Fatal(err)
+		}
+		c04Report(t, st, part, c, c04Eval(t, c))
+		return
+	}
+	rapid.Check(t, func(rt *rapid.T) {
+		c := rwGenCase(rt, true)
+		c04Report(rt, st, part, c, c04Eval(t, c))
+	})
+}
+
+// TestVF_C04_Systematic: for a generated fault-free prefix, one run per (stream, step boundary, failure kind), each
+// followed by a reconnect and a fixed tail that lets every target confirm and acknowledge.
+func TestVF_C04_Systematic(t *testing.T) {
+	const part = "systematic"
+	if rp := vfshared.ReplayPart(); rp != "" && rp != part {
+		t.Skip()
+	}
+	st := vfshared.NewStats("C04", part, c04Rule)
+	defer st.Flush()
+	if f := vfshared.ReplayFile(); f != "" {
+		var c rwCase
+		if _, err := vfshared.LoadReplay(f, &c); err != nil {
+			t.Fatal(err)
+		}
+		c04Report(t, st, part, c, c04Eval(t, c))
+		return
+	}
+	rapid.Check(t, func(rt *rapid.T) {
+		base := rwCase{NS: rapid.IntRange(1, 2).Draw(rt, "ns"), NT: rapid.IntRange(1, 3).Draw(rt, "nt")}
+		n := rapid.IntRange(3, 12).Draw(rt, "nprefix")
+		for i := 0; i < n; i++ {
+			x := rapid.IntRange(0, 9).Draw(rt, "op")
+			switch {
+			case x < 5:
+				base.Ops = append(base.Ops, rwGenEmit(rt, base.NS, base.NT))
+			case x < 7:
+				base.Ops = append(base.Ops, rwOp{K: "finish", I: rapid.IntRange(0, base.NT-1).Draw(rt, "ft"), N: rapid.IntRange(1, 3).Draw(rt, "fn")})
+			case x < 9:
+				base.Ops = append(base.Ops, rwOp{K: "ack", I: rapid.IntRange(0, base.NT-1).Draw(rt, "at")})
+			default:
+				base.Ops = append(base.Ops, rwOp{K: "stall", Side: "T", I: rapid.IntRange(0, base.NT-1).Draw(rt, "st")})
+			}
+		}
+		var tail []rwOp
+		for j := 0; j < base.NT; j++ {
+			tail = append(tail, rwOp{K: "unstall", Side: "T", I: j})
+		}
+		tail = append(tail, rwOp{K: "advance", N: 1000})
+		for rep := 0; rep < 2; rep++ {
+			for i := 0; i < base.NS; i++ {
+				tail = append(tail, rwOp{K: "emit", I: i})
+			}
+			for j := 0; j < base.NT; j++ {
+				tail = append(tail, rwOp{K: "finish", I: j, N: 100}, rwOp{K: "ack", I: j})
+			}
+			tail = append(tail, rwOp{K: "advance", N: 1000})
+		}
+		for at := 0; at <= len(base.Ops); at++ {
+			for _, side := range []string{"S", "T"} {
+				cnt := base.NS
+				if side == "T" {
+					cnt = base.NT
+				}
+				for idx := 0; idx < cnt; idx++ {
+					for _, how := range []string{"recvErr", "recvEOF", "sendErr", "cancel"} {
+						c := rwCase{NS: base.NS, NT: base.NT}
+						c.Ops = append(c.Ops, base.Ops[:at]...)
+						c.Ops = append(c.Ops, rwOp{K: "break", Side: side, I: idx, How: how}, rwOp{K: "connect", Side: side, I: idx})
+						c.Ops = append(c.Ops, base.Ops[at:]...)
+						c.Ops = append(c.Ops, tail...)
+						c04Report(rt, st, part, c, c04Eval(t, c))
+					}
+				}
+			}
+		}
+	})
+}
